@@ -101,8 +101,8 @@ AcceptRules(x, skipGap) ==
      /\ \A d \in 1..Len(x.drops) : x.drops[d] # "bad"                \* supported drop denominators
      /\ \A i, j \in 1..Len(K) : (i < j /\ K[i].id = K[j].id) => K[i].prio # K[j].prio
      /\ \A p \in PrioSet : SumFits(WSum(p))
-     /\ \A i \in 1..Len(K) : /\ \A j \in 1..Len(K[i].eps) : ~IsZero(EpW(K[i].eps[j]))
-                               /\ SumFits([j \in 1..Len(K[i].eps) |-> EpW(K[i].eps[j])])
+     /\ \A i \in 1..Len(K) : \A j \in 1..Len(K[i].eps) : ~IsZero(EpW(K[i].eps[j]))
+     /\ \A i \in 1..Len(K) : SumFits([k \in 1..Len(K[i].eps) |-> EpW(K[i].eps[k])])
      /\ \A a, b \in AllEps : a # b => K[a[1]].eps[a[2]].addr # K[b[1]].eps[b[2]].addr
      /\ (skipGap \/ \A p \in 0..(Cardinality(PrioSet) - 1) : p \in PrioSet)
 Accept(x) == AcceptRules(x, FALSE)
